@@ -46,6 +46,7 @@ class Leaf(N):
     os_: Param[Optional[str]]
     e: Param[Color] = Color.RED
     sh: Param[Optional[Shape]]
+    od: Param[Optional[int]] = 5
     m: Meta[int] = 3
     op: Option[str] = "o"
     k: Constant[int] = 7
@@ -179,6 +180,11 @@ class V2(N):
     z: Meta[str] = "meta"
     oz: Param[Optional[N]]
     g: Annotated[Path, pathgenerator("g.txt")]
+    # new parameters whose defaults are falsy
+    n0: Param[int] = 0
+    fl: Param[bool] = False
+    em: Param[str] = ""
+    el: Param[List[int]] = []
 
 
 # ---- constants / type identifiers (C03) -------------------------------------
